@@ -162,7 +162,8 @@ class BrokerRig(object):
             sys.stdout = saved
             settings.set_print_events(False)
         self.oid = 0
-        self.oid_of = {}             # order_id string -> spec order id
+        self.oid_of = {}             # (portfolio id, order_id) -> spec order id
+        self.caller_ids = {}         # per portfolio: how many caller-named orders so far
 
     def ts(self, m):
         return ts(m) + self.frac
@@ -222,12 +223,14 @@ class BrokerRig(object):
             elif op == "submit":
                 self.oid += 1
                 # every third order carries a commission figure of its own and a caller-chosen id: the broker charges
-                # what the fee model says regardless (C05), and ids are only names
+                # what the fee model says regardless (C05), and ids are only names: the caller numbers the orders of EACH
+                # portfolio 1, 2, ... so two portfolios' pending orders can carry the same id (seed C04-a14)
                 if self.oid % 3 == 0:
-                    order = Order(b.current_dt, c["asset"], c["qty"], commission=7.5, order_id="caller-%d" % self.oid)
+                    k = self.caller_ids[c["pid"]] = self.caller_ids.get(c["pid"], 0) + 1
+                    order = Order(b.current_dt, c["asset"], c["qty"], commission=7.5, order_id="caller-%d" % k)
                 else:
                     order = Order(b.current_dt, c["asset"], c["qty"])
-                self.oid_of[order.order_id] = self.oid
+                self.oid_of[(c["pid"], order.order_id)] = self.oid
                 b.submit_order(c["pid"], order)
             elif op == "update":
                 b.update(self.ts(c["t"]))
@@ -256,7 +259,7 @@ class BrokerRig(object):
         return dict(call=c0, err=err, marks=self._marks(marks), fills=self._fills(fills), post=self.project())
 
     def _fills(self, fills):
-        return [dict(pid=f["pid"], oid=self.oid_of.get(f["oid"], 0), asset=self.unspell.get(f["asset"], f["asset"]), qty=int(f["qty"]),
+        return [dict(pid=f["pid"], oid=self.oid_of.get((f["pid"], f["oid"]), 0), asset=self.unspell.get(f["asset"], f["asset"]), qty=int(f["qty"]),
                      px=mil(f["px"]), comm=mil(f["comm"]), t=minutes(f["t"]),
                      f_px=float(f["px"]), f_comm=float(f["comm"])) for f in fills]
 
@@ -312,7 +315,7 @@ def project_broker(b, oid_of, UNKNOWN="__no_such_portfolio__"):
             p["trp"][pid], p["tup"][pid], p["ttp"][pid] = mil(fl["trp"][pid]), mil(fl["tup"][pid]), mil(fl["ttp"][pid])
             p["hist"][pid] = [dict(kind=h.type, t=minutes(h.dt), debit=mil(h.debit), credit=mil(h.credit),
                                    bal=mil(h.balance)) for h in pf.history]
-            p["queue"][pid] = [[oid_of.get(o.order_id, 0), o.asset, int(o.quantity)] for o in _pending(b.open_orders[pid])]
+            p["queue"][pid] = [[oid_of.get((pid, o.order_id), 0), o.asset, int(o.quantity)] for o in _pending(b.open_orders[pid])]
         p["acctEq"] = _total(b.get_account_total_equity, p["teq"])
         p["acctMv"] = _total(b.get_account_total_market_value, p["tmv"])
         p["unk"] = dict(cash=_cls(lambda: b.get_portfolio_cash_balance(UNKNOWN)),
